@@ -662,7 +662,109 @@ func runC04(r *Run) {
 		})
 	}
 	r.Floor("R8", "MaxTokens.Amount adjustments", nAmt, 2)
+
+	// ---------- R15 ----------
+	r.Rule("R15", "FLOW.listed-addresses-in-canonical-spelling: StakeAuthorization.Accept matches a message's validator against the grant's allow and deny lists as strings, and bech32 has two valid spellings of every address (all lower case, all upper case). Every validator or delegator address a staking precompile constructor stores into the native message it builds is therefore the SDK address type's own String() of the parsed address (directly, or through a helper each of whose returns is such a String() or lies behind the failing edge of the parse, where ValidateBasic refuses the message) — never the calldata string as it came: with the raw string a grantee spells a denied validator in upper case and the deny list does not recognise it")
+	{
+		var canonical func(v ssa.Value, depth int) bool
+		canonicalReturn := func(fn *ssa.Function, idx, depth int) bool {
+			if fn == nil || fn.Blocks == nil || depth <= 0 {
+				return false
+			}
+			ok, n := true, 0
+			eachInstr(fn, func(in ssa.Instruction) {
+				ret, isRet := in.(*ssa.Return)
+				if !isRet || (errResultIndex(fn) >= 0 && classifyExit(ret) == ExitFailure) {
+					return
+				}
+				ops := retOperands(ret)
+				if idx >= len(ops) {
+					ok = false
+					return
+				}
+				n++
+				op := ops[idx]
+				if canonical(op, depth-1) {
+					return
+				}
+				// the unparsed string, returned only where parsing it failed
+				var edges []Edge
+				eachCall(fn, func(ci CallInfo) {
+					if (ci.Name == "ValAddressFromBech32" || ci.Name == "AccAddressFromBech32") && len(callArgs(ci.Instr)) > 0 && stripValue(callArgs(ci.Instr)[0]) == stripValue(op) {
+						edges = append(edges, errEdges(ci.Instr)...)
+					}
+				})
+				if len(edges) == 0 {
+					ok = false
+					return
+				}
+				// the return must not be reachable over the parse's passing side
+				if w := (PathQuery{Fn: fn, Target: func(x ssa.Instruction) bool { return x == in }, DelEdge: edgeSet(edges)}).Search(); w != nil {
+					ok = false
+				}
+			})
+			return ok && n > 0
+		}
+		canonical = func(v ssa.Value, depth int) bool {
+			v = stripValue(v)
+			switch t := v.(type) {
+			case *ssa.Call:
+				ci := callInfo(t)
+				if ci.Name == "String" && (ci.Recv == "ValAddress" || ci.Recv == "AccAddress") {
+					return true
+				}
+				if ci.Static != nil && isHaqqPath(fnPkgPath(ci.Static)) {
+					return canonicalReturn(ci.Static, 0, depth)
+				}
+			case *ssa.Extract:
+				if c, ok := t.Tuple.(*ssa.Call); ok {
+					if ci := callInfo(c); ci.Static != nil && isHaqqPath(fnPkgPath(ci.Static)) {
+						return canonicalReturn(ci.Static, t.Index, depth)
+					}
+				}
+			case *ssa.Phi:
+				for _, e := range t.Edges {
+					if !canonical(e, depth) {
+						return false
+					}
+				}
+				return len(t.Edges) > 0
+			}
+			return false
+		}
+		// the messages whose validator a StakeAuthorization matches against its lists: the cases of Accept's type
+		// switch in the pinned SDK (tabled here; the thorough tier's W3 re-derives the table from the SDK's source)
+		listed := stakeAuthzMessages
+		nAddr := 0
+		for _, fn := range P.Funcs {
+			if !strings.HasSuffix(fnPkgPath(fn), "/precompiles/staking") || isTestSupport(P, fn) || fn.Synthetic != "" {
+				continue
+			}
+			eachInstr(fn, func(in ssa.Instruction) {
+				st, ok := in.(*ssa.Store)
+				if !ok {
+					return
+				}
+				sn, f, ok := fieldOfAddr(st.Addr)
+				if !ok || !listed[sn] || !(strings.HasPrefix(f, "Validator") || strings.HasPrefix(f, "Delegator")) || !strings.HasSuffix(f, "Address") {
+					return
+				}
+				if b, isB := st.Val.Type().Underlying().(*types.Basic); !isB || b.Kind() != types.String {
+					return
+				}
+				nAddr++
+				r.Check(canonical(st.Val, 3), "R15", fmt.Sprintf("%s#%s.%s-canonical", fnID(fn), sn, f), P.Pos(instrPos(in)), "the stored address is the address type's String()",
+					"a staking precompile constructor stores an address string into "+sn+"."+f+" as it came from calldata: the allow/deny lists of a StakeAuthorization are matched as strings, so the all-upper-case spelling of a denied validator passes the grant check and the funds move to a validator the grant excludes")
+			})
+		}
+		r.Floor("R15", "address fields of staking messages built in precompiles/staking", nAddr, 9)
+	}
+	r.Rule("R16", "see C05 R9 (imported): 'reduced by exactly the amount used' includes the failed spend — the grant update is written before the native message moves anything (authz DispatchActions, the precompiles' own UpdateGrant), so every precompile Run with Cosmos-side effects executes its methods on a CacheContext branch written only on success; otherwise a failed spend that the calling contract tolerates still consumes the allowance")
+	r.Import("R16/C05.", []string{"R9"}, runC05)
 }
+
+// stakeAuthzMessages: the message types (cosmos-sdk x/staking/types).StakeAuthorization.Accept handles.
+var stakeAuthzMessages = map[string]bool{"MsgDelegate": true, "MsgUndelegate": true, "MsgBeginRedelegate": true, "MsgCancelUnbondingDelegation": true}
 
 // passesParam: the call passes parameter p (unchanged) as one of its arguments.
 func passesParam(c ssa.CallInstruction, p *ssa.Parameter) bool {
